@@ -28,6 +28,7 @@ cWhos == {tlc.tla_val(set(p['whos']))}
 cCellMin == {tlc.tla_val(p['cellmin'])}
 cTotMin == {tlc.tla_val(p['totmin'])}
 cChannels == {tlc.tla_val(set(p.get('channels', ['bytes', 'file'])))}
+cModes == {tlc.tla_val(set(p.get('modes', [])))}
 ====
 """,
     )
@@ -65,6 +66,7 @@ PROPERTY SaturatedStays
   Channels <- cChannels
   MaxReloads = {p.get('maxreloads', 1)}
   Queries = {"TRUE" if p.get('queries') else "FALSE"}
+  Modes <- cModes
 INIT Init
 NEXT Next
 VIEW {"ViewH" if p.get("histview") else "View"}
@@ -140,6 +142,11 @@ class Ctx:
             return s.remove(key, o[3])
         if o[0] == "clear":
             return s.clear()
+        if o[0] == "setq":
+            # the documented forms of the setter: the names (any case), None and any other text for "min"
+            forms = {"min": ["min", None, "MIN", "anything-else"], "mean": ["mean", "MEAN", "Mean"], "meanmin": ["mean-min", "MEAN-MIN", "Mean-Min"]}[o[2]]
+            s.query_type = forms[zlib.crc32(repr((self.opno, o)).encode()) % len(forms)] if self.alt(o) else forms[0]
+            return None
         if o[0] == "chk":
             key = self.rk(o[2])
             return s.check_alt(s.hashes(key)) if self.alt(o) else s.check(key)
@@ -153,6 +160,8 @@ class Ctx:
                 objs[o[1]] = self.cls(filepath=path, hash_function=hf)
             else:
                 objs[o[1]] = self.cls.frombytes(bytes(s), hash_function=hf)
+            if self.p.get("modes"):      # the format does not store the query method: re-supplied like the hash function
+                objs[o[1]].query_type = s.query_type
             return None
 
     def cells(self, s):
@@ -228,9 +237,10 @@ class Ctx:
             last_ret[w] = {}
         ex = exp[w]
         ob = self.observe(s)
+        mode = ex.get("mode", self.mode)       # the query method in force (the query_type setter is an operation)
         rp2 = lambda **kw: rp(observed=ob, ret=ret, **kw)  # noqa
         legit = all(v >= 0 for v in ex["tru"].values())
-        if self.mode == "min" and not ex["sat"] and legit:
+        if mode == "min" and not ex["sat"] and legit:
             low = [k for k in self.keys if ob["est"][k] < ex["tru"][k]]
             t.check(not low, "C02", "C02.lower", ENGINE, lambda: rp2(below=low), sig)
             high = [k for k in self.keys if ob["est"][k] > ob["total"]]
@@ -245,7 +255,7 @@ class Ctx:
         if o[0] == "join":
             if not ex["sat"]:
                 t.check(ob["cells"] == ex["cells"] and ob["total"] == ex["total"], "C12", "C12.cells.cms", ENGINE, rp2, sig)
-                if self.mode == "min" and legit:
+                if mode == "min" and legit:
                     low = [k for k in self.keys if ob["est"][k] < ex["tru"][k]]
                     t.check(not low, "C12", "C12.sum_lower.cms", ENGINE, lambda: rp2(below=low), sig)
                 if t.focus == "C12" and not any(op[0] == "rem" for op in hist):
@@ -282,6 +292,9 @@ class Ctx:
             suffix = [op for op in full[cut + 1:] if op[1] == w or op[0] == "join"] if cut is not None else None
             if suffix is not None and not any(op[0] == "join" for op in full[cut + 1:]):
                 g = {w: self.new(hf)}
+                before = [op for op in full[:cut] if op[0] == "setq" and op[1] == w]
+                if before:      # the query method is configuration, like the hash function: clear() keeps it
+                    self.apply(g, before[-1])
                 for op in suffix:
                     self.apply(g, op)
                 og = self.observe(g[w])
@@ -292,19 +305,20 @@ class Ctx:
             tab = dict(self.table(s))
             t.check(len(tab) == min(self.p["nh"], len(lr)), "C17", "C17.hh_size", ENGINE, lambda: rp2(returned=lr), sig)
             t.check(all(k in lr and tab[k] == lr[k] for k in tab), "C17", "C17.hh_values", ENGINE, lambda: rp2(returned=lr), sig)
-            if tab:
+            if tab and not self.p.get("modes"):      # the order clause is about the class's own (min) query: estimates of a tracked key never drop there
                 mn = min(tab.values())
                 t.check(all(lr[k] <= mn for k in lr if k not in tab), "C17", "C17.hh_order", ENGINE, lambda: rp2(returned=lr), sig)
         if self.kind == "st":
             lr = last_ret[w]
             want = {k: v for k, v in lr.items() if v >= self.p["thr"]}
             t.check(dict(self.table(s)) == want, "C17", "C17.thr_exact", ENGINE, lambda: rp2(returned=lr), sig)
-            if self.mode == "min" and not ex["sat"] and legit:
+            if mode == "min" and not ex["sat"] and legit:
                 miss = [k for k in self.keys if k in lr and ex["tru"][k] >= self.p["thr"] and k not in dict(self.table(s))]
                 t.check(not miss, "C17", "C17.thr_never_missing", ENGINE, lambda: rp2(missing=miss), sig)
         # drift
         extab = [list(x) for x in ex["tab"]]
         dr = ob["cells"] != ex["cells"] or ob["total"] != ex["total"] or ob["est"] != ex["est"]
+        dr = dr or {"min": "min", "mean": "mean", "meanmin": "mean-min"}[mode] != s.query_type
         if self.kind == "hh":
             dr = dr or ob["tab"] != extab
         if self.kind == "st":
@@ -351,6 +365,8 @@ class Ctx:
             except Exception as exc:  # noqa
                 t.fail("C05", "C05.load_raises", ENGINE, rp2(channel=name, raised=repr(exc)), s2)
                 continue
+            if self.p.get("modes"):      # the format does not store the query method: re-supplied like the hash function
+                g.query_type = s.query_type
             o2 = {"cells": self.cells(g), "total": g.elements_added, "est": {k: g.check(self.rk(k)) for k in self.keys}}
             t.check(o2["est"] == ob["est"], "C05", "C05.queries.cms", ENGINE, lambda: rp2(channel=name, loaded=o2), s2)
             t.check((g.width, g.depth, g.elements_added, g.query_type) == (s.width, s.depth, s.elements_added, s.query_type) and type(g) is type(s),
@@ -418,6 +434,10 @@ def profiles(tier, seed, light=False, focus=None):
         P.append(dict(base, W=1, D=1, H=2, ntables=1, kind="st", thr=3, whos=["A"], amts=[1, 3], maxdepth=5, maxtrue=4))
         P.append(dict({**base, **tiny}, W=2, D=2, H=5, ntables=4, maxdepth=3, whos=["A"]))
         P.append(dict({**base, **tiny}, W=2, D=1, H=3, ntables=3, maxdepth=3, amts=[2, 4]))
+        # the query_type setter as an operation: the bounds must hold whenever the min query is in force, whatever it was before
+        P.append(dict(solo, W=2, D=2, H=5, ntables=3, keys=["a", "b"], modes=["min", "mean", "meanmin"], maxdepth=4))
+        P.append(dict(base, W=2, D=1, H=3, ntables=2, kind="st", thr=2, whos=["A"], keys=["a", "b"], modes=["min", "mean"], maxdepth=4, maxtrue=3))
+        P.append(dict(base, W=2, D=2, H=5, ntables=2, kind="hh", nh=1, whos=["A"], keys=["a", "b"], modes=["mean", "meanmin"], maxdepth=4, maxtrue=3))
     else:
         solo = dict(base, whos=["A"], maxdepth=5, maxtrue=3)
         P.append(dict(solo, W=2, D=2, H=3, ntables=0, exhaustive=True, keys=["a", "b"], maxdepth=4))          # every table of the smallest geometry
@@ -439,6 +459,12 @@ def profiles(tier, seed, light=False, focus=None):
         for (W, D, H) in [(2, 2, 5), (1, 1, 2), (3, 2, 7)]:
             P.append(dict({**base, **tiny}, W=W, D=D, H=H, ntables=4, maxdepth=4, whos=["A"]))
         P.append(dict({**base, **tiny}, W=2, D=1, H=3, ntables=8, maxdepth=3, amts=[2, 4]))
+        for (W, D, H, n) in [(2, 2, 5, 6), (3, 2, 7, 4), (2, 3, 5, 3)]:
+            P.append(dict(solo, W=W, D=D, H=H, ntables=n, modes=["min", "mean", "meanmin"], maxdepth=5))
+        P.append(dict(solo, W=1, D=2, H=2, ntables=1, modes=["min", "mean"], maxdepth=5))
+        P.append(dict(base, W=2, D=2, H=5, ntables=3, maxdepth=4, maxtrue=2, keys=["a", "b"], modes=["min", "mean"]))     # joins of sketches in different modes
+        P.append(dict(base, W=2, D=2, H=5, ntables=4, kind="st", thr=2, whos=["A"], modes=["min", "mean", "meanmin"], maxdepth=5, maxtrue=3))
+        P.append(dict(base, W=2, D=2, H=5, ntables=4, kind="hh", nh=2, whos=["A"], keys=["a", "b", "c"], modes=["min", "mean", "meanmin"], maxdepth=5, maxtrue=3))
     # every HISTORY (no state merging) of the smallest tables: what the code does after clear() / reload for every preceding history
     # and queries are operations of those histories (a memo of the last answer only shows in what happens after the query)
     hv = dict(base, W=1, D=1, H=2, ntables=1, whos=["A"], histview=True, maxreloads=1, queries=True)
@@ -446,6 +472,9 @@ def profiles(tier, seed, light=False, focus=None):
     P.append(dict(hv, kind="st", thr=3, keys=["a", "b"], amts=[1, 3], maxdepth=4 if tier == "quick" else 5, maxtrue=6, queries=False))
     P.append(dict(hv, kind="cms", W=2, D=1, H=3, keys=["a", "b"], amts=[2], maxdepth=5, maxtrue=4, channels=["bytes"], ntables=4))   # colliding and disjoint keys
     P.append(dict(hv, kind="hh", nh=1, keys=["a", "b"], amts=[1], maxdepth=5, maxtrue=5))
+    # removals of what was never added are valid calls (counters go below zero): the total can be back at 0 while counters are not
+    P.append(dict(hv, kind="cms", W=2, D=1, H=3, keys=["a", "b"], amts=[2], maxdepth=4, maxtrue=4, illegit=True, channels=["bytes"], ntables=2,
+                  queries=False, only=("C19", "C14")))
     if tier != "quick":
         P.append(dict(hv, kind="hh", nh=2, keys=["a", "b", "c"], amts=[1, 2], maxdepth=5, maxtrue=5, W=2, H=3, queries=False))
         P.append(dict(hv, kind="cms", W=2, D=2, H=3, keys=["a", "b"], amts=[1, 2], maxdepth=5, maxtrue=4, channels=["bytes"]))
@@ -473,7 +502,7 @@ def profiles(tier, seed, light=False, focus=None):
 
 
 FOCUS_FILTER = {
-    "C02": lambda p: p["mode"] == "min" and not p.get("patch_limits"),
+    "C02": lambda p: (p["mode"] == "min" or p.get("modes")) and not p.get("patch_limits"),
     "C16": lambda p: p.get("patch_limits"),
     "C17": lambda p: p["kind"] in ("hh", "st"),
     "C12": lambda p: p["kind"] == "cms" and not p.get("patch_limits"),
@@ -488,6 +517,8 @@ def run(focus, tier, seed):
     jobs = []
     for p in profiles(tier, seed, focus in ("C05", "C14", "C19"), focus):
         if (focus in FOCUS_FILTER and not FOCUS_FILTER[focus](p)) or (p.get("histview") and focus not in ("C19", "C17", "C14", "C02")):
+            continue
+        if p.get("only") and focus not in p["only"]:
             continue
         tabs = p["tables"]
         const = {k: v for k, v in p.items() if k != "tables"}
